@@ -12,6 +12,7 @@ import AsModel.Render
 import AsModel.Temporaries
 import AsModel.RustPrims
 import AsModel.Exec
+import AsModel.Effects
 import AsModel.WiringResolve
 /-!
 Line-protocol driver: one request per stdin line, one answer per stdout line.
@@ -124,6 +125,21 @@ def answerTab (fields : List String) : String :=
         | none => "illtyped"
         | some es => "[" ++ ",".intercalate (es.map showEntry) ++ "]"
       if sh a == sh b then "same " ++ (if a.isSome then "ok" else "illtyped") else s!"diff spec={sh a} exec={sh b}"
+    | _, _, _ => "bad-op"
+  -- evalcost <AST> <value> <meanings> <hex method name | ->: the tally of the model's run (`runT`, Effects.lean):
+  --   ok <entries> <calls of that method (of every method for `-`)> <index operations> <awaits> <Debug calls> <root evaluations>
+  -- root evaluations: `let __assert_struct_value = &(expr);` is emitted iff the assertion code is not empty
+  | ["evalcost", ast, val, ms, meth] =>
+    match (SExp.parse ast).bind readPat, (SExp.parse val).bind readVal, (SExp.parse ms).bind readMeanings with
+    | some p, some v, some m =>
+      let name : Option String := if meth == "-" then none else unhex meth
+      let wc : Weights := ⟨fun n => match name with | some x => if n == x then 1 else 0 | none => 1, 0, 0⟩
+      let x := expand p
+      match runT wc (rustPrims m) x v, runT ⟨fun _ => 0, 1, 0⟩ (rustPrims m) x v, runT ⟨fun _ => 0, 0, 1⟩ (rustPrims m) x v with
+      | some a, some b, some c =>
+        let rootEvals := if (x.body.toks []).isEmpty then 0 else 1
+        s!"ok {a.entries.length} {a.steps} {b.steps} {c.steps} {a.debugs} {rootEvals}"
+      | _, _, _ => "illtyped"
     | _, _, _ => "bad-op"
   -- parse <token trees> <oracle>: the parser model on the harness's dump of an invocation
   | ["parse", ts, orc] =>
